@@ -1,0 +1,12 @@
+//go:build verif
+
+package availability
+
+// Contracts for the deductive verifier in /verif (govc). Comments only; build tag "verif".
+
+// A-TIME: within one ingest the window test is a function of the block time and the window (the
+// clock does not cross the window boundary between two tests of the same block).
+//@ func IsWithinWindow
+//@   property C15
+//@   trusted
+//@   pure
